@@ -115,3 +115,9 @@ Example w_pyswarms_heads : heads Z w_pos = Some [[1]] /\ List.length w_cost = Li
 Proof. vm_compute. auto. Qed.
 Example w_zeus_shape : Forall2 (fun (step : list (list Z)) (lp : list Z) => List.length step = List.length lp) w_chain w_logp.
 Proof. unfold w_chain, w_logp. repeat constructor. Qed.
+
+(* the repaired PySwarms conversion on the refutation swarm: personal bests 1 (cost -2) and 5 (cost -10) *)
+Example w_pyswarms_pbest :
+  pyswarms_pbest_convert Z Z.sub zneghalf 1 zprior [1] [[1]; [5]] [-2; -10] = Some [mkS 1 0 1 [(1, 1)]; mkS 5 0 1 [(1, 5)]]
+  /\ Forall2 (fun x c => zneghalf c = zL x + zprior x) [[1]; [5]] [-2; -10].
+Proof. split; [vm_compute; reflexivity | repeat constructor]. Qed.
